@@ -256,12 +256,17 @@ Qed.
 Lemma pump_acct c : acct c -> acct (pump_send c).
 Proof. intros H id. rewrite pump_M, pump_received. apply H. Qed.
 
+(* GEN: RPCServerConnection._completed is an unbounded queue, so _queue_reply (put_nowait in a done
+   callback) never loses a reply *)
+Lemma completed_queue_unbounded c : queue_full c = false.
+Proof. reflexivity. Qed.
+
 Lemma enqueue_M r c id : M (enqueue r c) id = (M c id + one (fst r) id)%nat.
 Proof.
-  dconn c. unfold enqueue. cbn [c_send]. destruct (sender_alive sd); msimp; lia.
+  dconn c. unfold enqueue, queue_full, completed_maxsize. cbn [c_send]. destruct (sender_alive sd); msimp; lia.
 Qed.
 Lemma enqueue_received r c : c_received (enqueue r c) = c_received c.
-Proof. dconn c. unfold enqueue. cbn [c_send]. destruct (sender_alive sd); reflexivity. Qed.
+Proof. dconn c. unfold enqueue, queue_full, completed_maxsize. cbn [c_send]. destruct (sender_alive sd); reflexivity. Qed.
 
 (* GEN: _call_and_capture_failure catches BaseException, so a cancelled handler still produces
    a reply object (which nobody sends) *)
@@ -386,7 +391,7 @@ Lemma enqueue_frame r c :
   c_inflight (enqueue r c) = c_inflight c /\
   (sender_alive (c_send c) = true -> c_dropped (enqueue r c) = c_dropped c).
 Proof.
-  dconn c. unfold enqueue. cbn [c_send]. destruct (sender_alive sd); repeat split; auto. discriminate.
+  dconn c. unfold enqueue, queue_full, completed_maxsize. cbn [c_send]. destruct (sender_alive sd); repeat split; auto. discriminate.
 Qed.
 
 Lemma teardown_up cause mark c : conn_up (teardown cause mark c) = true -> teardown cause mark c = c.
@@ -841,7 +846,7 @@ Lemma handler_failure_is_local classify handler (c : conn) id usage n rest :
   c_inflight c' = rest /\ c_fail c' = c_fail c /\ c_recv c' = c_recv c /\ c_stop c' = c_stop c
   /\ c_cancelled c' = c_cancelled c /\ c_received c' = c_received c.
 Proof.
-  intros T. cbn [step]. rewrite T. dconn c. unfold enqueue, pump_send. cbn.
+  intros T. cbn [step]. rewrite T. dconn c. unfold enqueue, queue_full, completed_maxsize, pump_send. cbn.
   destruct sd; cbn; try (repeat split; reflexivity).
   destruct q as [|[i r] q']; cbn.
   - destruct usage; cbn; repeat split; reflexivity.
